@@ -3,7 +3,8 @@
 
    Vocabulary.  [nodup_first eqb l] (Spec/DistinctSpec.v): keep the first occurrence of every row,
    in input order.  [veqb]: structural identity of JSON-like rows (the executable model's row
-   fingerprint is the row itself; the repaired Go code uses sha256 . json.Marshal, assumed injective).
+   fingerprint is the row itself; the repaired Go code hashes the row's Go-syntax text %#v, which is
+   injective on JSON-like rows; sha256 is assumed collision-free).
    [FeqLaws]: symmetry and transitivity of the float identity [feqb] ("both NaN, or numerically equal
    with equal sign bit") — an explicit premise; [C06_feq_laws_binary64] discharges it from the
    standard library's float specification.  [canon_row]: an object whose keys are strictly increasing
